@@ -1,16 +1,982 @@
-//! Concurrent mode (placeholder; filled in below)
-use crate::exec::RunResult;
-use crate::minimize::Target;
-use crate::spec::*;
-use std::collections::BTreeSet;
-use std::path::PathBuf;
+//! Concurrent mode: 2-4 REAL OS threads share one Store. A controller releases exactly one
+//! of them at a time; threads hand control back at every `pocket_db::verif` yield point
+//! (named points, read-transaction creation, writer-lock acquisition), so one schedule
+//! (a list of thread indexes) is one exactly repeatable execution. LMDB's writer mutex is
+//! modelled by the controller: a thread is only released into `write_txn()` while no other
+//! thread holds the lock, so no thread ever blocks inside liblmdb.
+//!
+//! Oracle: linearizability against the reference model, searched over all orders
+//! consistent with real time (invoke/return stamped with the controller's step counter),
+//! trying the writer-lock grant order first; the final observation of the real store must
+//! equal the model state at the end of the same linearization.
 
-pub fn generate(_rs: u64) -> Trace {
-    unimplemented!()
+use crate::exec::{Finding, RunResult, Stats};
+use crate::gen::{profile, Gen};
+use crate::minimize::Target;
+use crate::model::*;
+use crate::obs::{self, ObsOpts};
+use crate::real::{self, StoreOutcome};
+use crate::rng::{fnv1a, Rng};
+use crate::spec::*;
+use pocket_db::Store;
+use pocket_types::OwnedEvent;
+use std::cell::Cell;
+use std::collections::{BTreeMap, BTreeSet};
+use std::path::PathBuf;
+use std::sync::{Arc, Condvar, Mutex};
+use std::time::Duration;
+
+thread_local! {
+    static TID: Cell<Option<usize>> = const { Cell::new(None) };
 }
-pub fn run_conc(_t: &Trace, _scratch: PathBuf, _known: &BTreeSet<String>, _verbose: bool) -> RunResult {
-    unimplemented!()
+
+#[derive(Clone, Copy, PartialEq, Eq, Debug)]
+enum St {
+    NotStarted,
+    Running,
+    Parked(&'static str),
+    WaitWriter,
+    Done,
 }
-pub fn minimize_conc(t: &Trace, _target: &Target, _known: &BTreeSet<String>) -> Trace {
-    t.clone()
+
+struct CtlState {
+    status: Vec<St>,
+    current: Option<usize>,
+    writer: Option<usize>,
+    step: u64,
+    /// (step, thread, where it was released from)
+    events: Vec<(u64, usize, String)>,
+    /// order in which the writer lock was granted: thread indexes
+    grants: Vec<usize>,
+    /// op currently executing per thread
+    cur_op: Vec<usize>,
+    /// (thread, op index) in grant order
+    grant_ops: Vec<(usize, usize)>,
+    hung: bool,
+}
+
+pub struct Ctl {
+    m: Mutex<CtlState>,
+    cv: Condvar,
+}
+
+impl Ctl {
+    fn new(n: usize) -> Ctl {
+        Ctl {
+            m: Mutex::new(CtlState {
+                status: vec![St::NotStarted; n],
+                current: None,
+                writer: None,
+                step: 0,
+                events: vec![],
+                grants: vec![],
+                cur_op: vec![0; n],
+                grant_ops: vec![],
+                hung: false,
+            }),
+            cv: Condvar::new(),
+        }
+    }
+
+    /// called by an application thread: give control back and wait to be released again
+    fn yield_at(&self, t: usize, st: St) {
+        let mut g = self.m.lock().unwrap();
+        g.status[t] = st;
+        g.current = None;
+        self.cv.notify_all();
+        while g.current != Some(t) {
+            g = self.cv.wait(g).unwrap();
+        }
+        g.status[t] = St::Running;
+    }
+
+    fn step(&self) -> u64 {
+        self.m.lock().unwrap().step
+    }
+
+    fn done(&self, t: usize) {
+        let mut g = self.m.lock().unwrap();
+        if g.writer == Some(t) {
+            g.writer = None;
+        }
+        g.status[t] = St::Done;
+        g.current = None;
+        self.cv.notify_all();
+    }
+
+    fn release_writer_if_held(&self, t: usize) {
+        let mut g = self.m.lock().unwrap();
+        if g.writer == Some(t) {
+            g.writer = None;
+        }
+    }
+}
+
+struct ConcHooks {
+    ctl: Arc<Ctl>,
+}
+
+impl pocket_db::verif::Hooks for ConcHooks {
+    fn point(&self, name: &'static str) {
+        if let Some(t) = TID.with(|c| c.get()) {
+            self.ctl.yield_at(t, St::Parked(name));
+        }
+    }
+    fn fail(&self, _name: &'static str) -> bool {
+        false
+    }
+    fn writer_enter(&self) {
+        if let Some(t) = TID.with(|c| c.get()) {
+            {
+                let g = self.ctl.m.lock().unwrap();
+                if g.writer == Some(t) {
+                    return; // already holds it (nested acquisition by the same thread)
+                }
+            }
+            self.ctl.yield_at(t, St::WaitWriter);
+        }
+    }
+    fn writer_exit(&self) {
+        if let Some(t) = TID.with(|c| c.get()) {
+            self.ctl.release_writer_if_held(t);
+        }
+    }
+}
+
+/// What an op returned, in comparable form
+#[derive(Clone, Debug, PartialEq)]
+enum Outcome {
+    Store(StoreOutcome),
+    Removed(Result<(), String>),
+    Has(Result<bool, String>),
+    Get(Result<Option<String>, String>),
+    Query(QueryOutcomeC),
+}
+
+#[derive(Clone, Debug, PartialEq)]
+enum QueryOutcomeC {
+    Ok(Vec<B32>, bool),
+    Scraper,
+    OtherErr(String),
+    Panic(String),
+}
+
+#[derive(Clone, Debug)]
+struct OpRecord {
+    thread: usize,
+    idx: usize,
+    op: Op,
+    invoke: u64,
+    ret: u64,
+    out: Outcome,
+}
+
+fn bytes_val(b: &[u8]) -> String {
+    format!("{}B:{:016x}", b.len(), fnv1a(b))
+}
+
+fn exec_op(store: &Store, op: &Op, enc: &BTreeMap<B32, OwnedEvent>) -> Outcome {
+    match op {
+        Op::Store(e) => {
+            let ev = enc.get(&e.id).cloned().unwrap_or_else(|| real::encode(e));
+            Outcome::Store(real::store_event(store, &ev))
+        }
+        Op::Remove(id) => Outcome::Removed(match real::catch(|| store.remove_event(pocket_types::Id::from_bytes(*id))) {
+            Ok(Ok(())) => Ok(()),
+            Ok(Err(e)) => Err(real::err_name(&e.inner)),
+            Err(p) => Err(format!("PANIC:{p}")),
+        }),
+        Op::Has(id) => Outcome::Has(match real::catch(|| store.has_event(pocket_types::Id::from_bytes(*id))) {
+            Ok(Ok(b)) => Ok(b),
+            Ok(Err(e)) => Err(real::err_name(&e.inner)),
+            Err(p) => Err(format!("PANIC:{p}")),
+        }),
+        Op::Get(id) => Outcome::Get(match real::catch(|| store.get_event_by_id(pocket_types::Id::from_bytes(*id)).map(|o| o.map(|e| bytes_val(e.as_bytes())))) {
+            Ok(Ok(v)) => Ok(v),
+            Ok(Err(e)) => Err(real::err_name(&e.inner)),
+            Err(p) => Err(format!("PANIC:{p}")),
+        }),
+        Op::Query(q) => Outcome::Query(match real::query(store, q) {
+            QueryOutcome::Ok(ids, r) => QueryOutcomeC::Ok(ids, r),
+            QueryOutcome::Scraper => QueryOutcomeC::Scraper,
+            QueryOutcome::OtherErr(e) => QueryOutcomeC::OtherErr(e),
+            QueryOutcome::Panic(p) => QueryOutcomeC::Panic(p),
+        }),
+        _ => Outcome::Removed(Ok(())),
+    }
+}
+
+fn outcome_label(o: &Outcome) -> String {
+    match o {
+        Outcome::Store(s) => s.label(),
+        Outcome::Removed(r) => format!("{:?}", r),
+        Outcome::Has(r) => format!("{:?}", r),
+        Outcome::Get(r) => format!("{:?}", r),
+        Outcome::Query(QueryOutcomeC::Ok(ids, red)) => format!("Ok([{}], redacted={red})", ids.iter().map(short).collect::<Vec<_>>().join(",")),
+        Outcome::Query(q) => format!("{:?}", q),
+    }
+}
+
+/// Does the model, in state `m`, allow `op` to return `out`? If so apply it.
+fn model_step(m: &mut Model, op: &Op, out: &Outcome, enc: &BTreeMap<B32, OwnedEvent>) -> bool {
+    match (op, out) {
+        (Op::Store(e), Outcome::Store(so)) => {
+            m.note_event(e);
+            let ex = m.store_expect(e);
+            match so {
+                StoreOutcome::Ok(off) => {
+                    // under concurrency exactly one of several identical submissions succeeds
+                    if ex.refusals.contains(&Refusal::Duplicate) || ex.refusals.contains(&Refusal::Deleted) || ex.refusals.contains(&Refusal::Replaced) {
+                        return false;
+                    }
+                    let len = enc.get(&e.id).map(|x| x.as_bytes().len()).unwrap_or_else(|| e.size());
+                    let _ = m.apply_store(e, *off, len);
+                    true
+                }
+                StoreOutcome::Duplicate => ex.refusals.contains(&Refusal::Duplicate),
+                StoreOutcome::Deleted => ex.refusals.contains(&Refusal::Deleted),
+                StoreOutcome::Replaced => ex.refusals.contains(&Refusal::Replaced) || ex.tie,
+                StoreOutcome::InvalidDelete => ex.refusals.contains(&Refusal::InvalidDelete) || ex.malformed,
+                _ => false,
+            }
+        }
+        (Op::Remove(id), Outcome::Removed(Ok(()))) => {
+            let _ = m.apply_remove(id);
+            true
+        }
+        (Op::Has(id), Outcome::Has(Ok(b))) => m.retrievable.contains(id) == *b,
+        (Op::Get(id), Outcome::Get(Ok(v))) => {
+            if m.retrievable.contains(id) {
+                let want = enc.get(id).map(|e| bytes_val(e.as_bytes()));
+                want.is_some() && *v == want
+            } else {
+                v.is_none()
+            }
+        }
+        (Op::Query(q), Outcome::Query(qo)) => {
+            let out = match qo {
+                QueryOutcomeC::Ok(ids, r) => QueryOutcome::Ok(ids.clone(), *r),
+                QueryOutcomeC::Scraper => QueryOutcome::Scraper,
+                QueryOutcomeC::OtherErr(e) => QueryOutcome::OtherErr(e.clone()),
+                QueryOutcomeC::Panic(p) => QueryOutcome::Panic(p.clone()),
+            };
+            m.query_expect(q).check(q, &out).is_none()
+        }
+        _ => false,
+    }
+}
+
+struct Search<'a> {
+    recs: &'a [OpRecord],
+    per_thread: Vec<Vec<usize>>, // indexes into recs, per thread, in program order
+    enc: &'a BTreeMap<B32, OwnedEvent>,
+    final_obs: &'a obs::Obs,
+    opts: ObsOpts,
+    budget: u64,
+    leaf_mismatch: Option<String>,
+}
+
+impl<'a> Search<'a> {
+    /// DFS over linearizations; `hint` orders the candidates tried first
+    fn dfs(&mut self, next: &mut Vec<usize>, m: &Model, hint: &[usize], depth: usize) -> Option<bool> {
+        if self.budget == 0 {
+            return None;
+        }
+        self.budget -= 1;
+        let total: usize = self.per_thread.iter().map(|v| v.len()).sum();
+        if depth == total {
+            // leaf: the final observation must be this model state
+            let enc = self.enc;
+            let f = |id: &B32| enc.get(id).map(|e| e.as_bytes().to_vec());
+            let exp = obs::observe_model(m, &f, &self.opts, 0);
+            // offsets: compare only probes the real observation has
+            return match obs::first_diff(&exp, self.final_obs) {
+                None => Some(true),
+                Some((k, w, g)) => {
+                    if self.leaf_mismatch.is_none() {
+                        self.leaf_mismatch = Some(format!("probe {} shows {} but this order requires {}", crate::exec::shorten_key(k), g, w));
+                    }
+                    Some(false)
+                }
+            };
+        }
+        // candidates: the next op of each thread, if no unlinearized op returned before it was invoked
+        let mut cands: Vec<usize> = vec![];
+        for t in 0..self.per_thread.len() {
+            if next[t] < self.per_thread[t].len() {
+                let r = self.per_thread[t][next[t]];
+                let inv = self.recs[r].invoke;
+                let mut blocked = false;
+                for u in 0..self.per_thread.len() {
+                    if u != t && next[u] < self.per_thread[u].len() {
+                        let o = self.per_thread[u][next[u]];
+                        if self.recs[o].ret < inv {
+                            blocked = true;
+                            break;
+                        }
+                    }
+                }
+                if !blocked {
+                    cands.push(r);
+                }
+            }
+        }
+        // hint order first
+        cands.sort_by_key(|r| hint.iter().position(|h| h == r).unwrap_or(usize::MAX));
+        let mut inconclusive = false;
+        for r in cands {
+            let rec = &self.recs[r];
+            let mut m2 = m.clone();
+            if model_step(&mut m2, &rec.op, &rec.out, self.enc) {
+                next[rec.thread] += 1;
+                let res = self.dfs(next, &m2, hint, depth + 1);
+                next[rec.thread] -= 1;
+                match res {
+                    Some(true) => return Some(true),
+                    Some(false) => {}
+                    None => inconclusive = true,
+                }
+            }
+        }
+        if inconclusive {
+            None
+        } else {
+            Some(false)
+        }
+    }
+}
+
+// ------------------------------------------------------------------ generation
+
+pub fn generate(rs: u64) -> Trace {
+    let p = profile("C14");
+    let mut g = Gen::new(rs, p);
+    // base history
+    let nbase = g.rng.range(2, 8) as usize;
+    let mut ops = vec![];
+    for _ in 0..nbase {
+        let e = match g.rng.weighted(&[60, 25, 15]) {
+            0 => g.new_event(),
+            1 => g.new_version(),
+            _ => g.deletion(),
+        };
+        // conc runs keep events small-to-medium; one in a while a growth-forcing size
+        g_apply(&mut g, &e);
+        ops.push(Op::Store(e));
+    }
+    let nthreads = 2 + g.rng.weighted(&[55, 30, 15]);
+    let mut threads: Vec<Vec<Op>> = vec![vec![]; nthreads];
+    let scenario = g.rng.weighted(&[20, 20, 15, 20, 10, 15]);
+    let known: Vec<EvSpec> = g.model.events.values().cloned().collect();
+    let retr: Vec<B32> = g.model.retrievable.iter().copied().collect();
+    match scenario {
+        0 => {
+            // the same event submitted by every thread
+            let e = g.new_event();
+            for t in threads.iter_mut() {
+                t.push(Op::Store(e.clone()));
+            }
+            if g.rng.chance(1, 2) {
+                let t = g.rng.usize(nthreads);
+                let op = match g.rng.below(3) {
+                    0 => Op::Has(e.id),
+                    1 => Op::Get(e.id),
+                    _ => Op::Query(QuerySpec { ids: vec![e.id], ..QuerySpec::all_allowed() }),
+                };
+                let pos = g.rng.usize(threads[t].len() + 1);
+                threads[t].insert(pos, op);
+            }
+        }
+        1 => {
+            // competing versions at one address
+            let first = {
+                let mut e = g.new_version();
+                if e.addr().is_none() {
+                    e.kind = 10000;
+                    e.tags.clear();
+                }
+                e
+            };
+            let a = first.addr().unwrap();
+            for (i, t) in threads.iter_mut().enumerate() {
+                let mut e = first.clone();
+                e.id = g.rng.bytes32();
+                e.at = first.at.saturating_add(g.rng.below(3)).saturating_sub(g.rng.below(2));
+                if i == 0 {
+                    e = first.clone();
+                }
+                t.push(Op::Store(e));
+            }
+            if g.rng.chance(2, 3) {
+                let t = g.rng.usize(nthreads);
+                let q = QuerySpec { authors: vec![a.pk], kinds: vec![a.kind], ..QuerySpec::all_allowed() };
+                threads[t].push(Op::Query(q));
+            }
+        }
+        2 => {
+            // a deletion request racing the store of its target
+            let target = g.new_event();
+            let del = EvSpec {
+                id: g.rng.bytes32(),
+                pk: target.pk,
+                kind: 5,
+                at: target.at.saturating_add(1),
+                tags: vec![vec!["e".into(), hex(&target.id)]],
+                content: vec![],
+            };
+            threads[0].push(Op::Store(target.clone()));
+            threads[1].push(Op::Store(del));
+            if nthreads > 2 {
+                threads[2].push(Op::Get(target.id));
+                if g.rng.chance(1, 2) {
+                    threads[2].push(Op::Store(target.clone()));
+                }
+            }
+        }
+        3 => {
+            // stores racing a multi-id query (one snapshot must explain the whole answer)
+            let mut ids = vec![];
+            let nw = nthreads - 1;
+            for t in 0..nw {
+                let n = 1 + g.rng.usize(2);
+                for _ in 0..n {
+                    let e = g.new_event();
+                    if !is_ephemeral(e.kind) {
+                        ids.push(e.id);
+                    }
+                    threads[t].push(Op::Store(e));
+                }
+            }
+            if !retr.is_empty() {
+                ids.push(*g.rng.pick(&retr));
+            }
+            g.rng.shuffle(&mut ids);
+            let q = match g.rng.below(3) {
+                0 | 1 => QuerySpec { ids: ids.clone(), ..QuerySpec::all_allowed() },
+                _ => QuerySpec { authors: g.authors.clone(), ..QuerySpec::all_allowed() },
+            };
+            threads[nw].push(Op::Query(q.clone()));
+            if g.rng.chance(1, 2) {
+                threads[nw].push(Op::Query(q));
+            }
+        }
+        4 => {
+            // removal racing queries and lookups
+            if let Some(id) = retr.first().copied() {
+                threads[0].push(Op::Remove(id));
+                let e = g.model.events[&id].clone();
+                threads[1].push(Op::Query(QuerySpec { authors: vec![e.pk], ..QuerySpec::all_allowed() }));
+                threads[1].push(Op::Get(id));
+                if nthreads > 2 {
+                    threads[2].push(Op::Store(e));
+                }
+            } else {
+                let e = g.new_event();
+                threads[0].push(Op::Store(e.clone()));
+                threads[1].push(Op::Has(e.id));
+            }
+        }
+        _ => {
+            // a random mix
+            for t in 0..nthreads {
+                let n = 1 + g.rng.usize(3);
+                for _ in 0..n {
+                    let op = match g.rng.weighted(&[35, 15, 10, 10, 8, 8, 14]) {
+                        0 => Op::Store(g.new_event()),
+                        1 => Op::Store(g.new_version()),
+                        2 => {
+                            if let Some(e) = g.resubmit() {
+                                Op::Store(e)
+                            } else {
+                                Op::Store(g.new_event())
+                            }
+                        }
+                        3 => Op::Store(g.deletion()),
+                        4 => {
+                            if !known.is_empty() {
+                                Op::Remove(g.rng.pick(&known).id)
+                            } else {
+                                Op::Store(g.new_event())
+                            }
+                        }
+                        5 => {
+                            if !known.is_empty() {
+                                Op::Get(g.rng.pick(&known).id)
+                            } else {
+                                Op::Store(g.new_event())
+                            }
+                        }
+                        _ => {
+                            let mut q = g.query();
+                            q.allow_scrape = true;
+                            Op::Query(q)
+                        }
+                    };
+                    threads[t].push(op);
+                }
+            }
+        }
+    }
+    for t in threads.iter_mut() {
+        if t.is_empty() {
+            t.push(Op::Store(g.new_event()));
+        }
+    }
+    // the schedule is generated while running (it depends on which threads are runnable);
+    // the generator fixes the policy and its PRNG stream
+    let sched_seed = g.rng.next();
+    Trace {
+        cfg: Cfg { prop: "C14".into(), mode: Mode::Conc, seed: sched_seed, blocker: false, extra_tables: 0, obs_level: 0, drain: false },
+        ops,
+        threads,
+        schedule: vec![],
+        expect: None,
+    }
+}
+
+fn g_apply(g: &mut Gen, e: &EvSpec) {
+    g.model.note_event(e);
+    let ex = g.model.store_expect(e);
+    if !ex.must_fail() {
+        let off = g.offset_counter;
+        g.offset_counter += ((e.size() as u64) + 7) / 8 * 8;
+        let _ = g.model.apply_store(e, off, e.size());
+    }
+}
+
+// ------------------------------------------------------------------ execution
+
+enum Policy {
+    /// follow the recorded schedule; entries naming a non-runnable thread are skipped and
+    /// when the schedule is exhausted the lowest-numbered runnable thread runs
+    Replay(Vec<u8>, usize),
+    Uniform(Rng),
+    /// PCT-style: random priorities, lowered at d random steps
+    Pct(Rng, Vec<u32>, Vec<u64>),
+}
+
+pub struct ConcResult {
+    pub result: RunResult,
+    pub schedule: Vec<u8>,
+}
+
+pub fn run_conc(trace: &Trace, scratch: PathBuf, _known: &BTreeSet<String>, verbose: bool) -> RunResult {
+    run_conc_full(trace, scratch, verbose).result
+}
+
+pub fn run_conc_full(trace: &Trace, scratch: PathBuf, verbose: bool) -> ConcResult {
+    let mut stats = Stats::default();
+    let mut log: Vec<String> = vec![];
+    let _ = std::fs::create_dir_all(&scratch);
+    let dir = scratch.join("d0");
+    let finish = |finding: Option<Finding>, stats: Stats, log: Vec<String>, sig: u64, n: usize, schedule: Vec<u8>| ConcResult {
+        result: RunResult { finding, known: vec![], stats, log, signature: sig, ops_executed: n },
+        schedule,
+    };
+    pocket_db::verif::install(None);
+    pocket_types::verif_clock::set(Some(crate::gen::T0 + 100));
+    let store = match real::catch(|| Store::new(&dir, vec![])) {
+        Ok(Ok(s)) => s,
+        _ => {
+            let _ = std::fs::remove_dir_all(&scratch);
+            return finish(
+                Some(Finding { clause: "open-failed".into(), props: vec![], detail: "harness: Store::new failed".into(), op_index: 0 }),
+                stats,
+                log,
+                0,
+                0,
+                vec![],
+            );
+        }
+    };
+    // ---- base history, sequentially, no oracle beyond "the model follows the outcomes"
+    let mut model = Model::default();
+    model.clock = Some(crate::gen::T0 + 100);
+    let mut enc: BTreeMap<B32, OwnedEvent> = BTreeMap::new();
+    for op in &trace.ops {
+        if let Op::Store(e) = op {
+            let ev = real::encode(e);
+            let _ = enc.insert(e.id, ev.clone());
+            model.note_event(e);
+            if let StoreOutcome::Ok(off) = real::store_event(&store, &ev) {
+                let _ = model.apply_store(e, off, ev.as_bytes().len());
+            }
+        } else if let Op::Remove(id) = op {
+            let _ = store.remove_event(pocket_types::Id::from_bytes(*id));
+            let _ = model.apply_remove(id);
+        }
+    }
+    for th in &trace.threads {
+        for op in th {
+            if let Op::Store(e) = op {
+                if !enc.contains_key(&e.id) {
+                    let _ = enc.insert(e.id, real::encode(e));
+                }
+                model.note_event(e);
+            }
+        }
+    }
+    let opts = ObsOpts { battery: false, extra: false, offsets: false };
+    {
+        let f = |id: &B32| enc.get(id).map(|e| e.as_bytes().to_vec());
+        let real_o = obs::observe_real(&store, &model, &opts, 0);
+        let exp = obs::observe_model(&model, &f, &opts, 0);
+        if obs::first_diff(&exp, &real_o).is_some() {
+            // the sequential base already disagrees with the model: other properties' business
+            stats.inc("conc/base_mismatch");
+            let _ = real::catch(|| store.verif_close());
+            let _ = std::fs::remove_dir_all(&scratch);
+            pocket_types::verif_clock::set(None);
+            return finish(None, stats, log, 1, trace.ops.len(), vec![]);
+        }
+    }
+
+    // ---- the concurrent phase
+    let n = trace.threads.len();
+    let ctl = Arc::new(Ctl::new(n));
+    pocket_db::verif::install(Some(Arc::new(ConcHooks { ctl: ctl.clone() })));
+    let mut policy = if !trace.schedule.is_empty() {
+        Policy::Replay(trace.schedule.clone(), 0)
+    } else {
+        let mut r = Rng::new(trace.cfg.seed);
+        if r.chance(1, 2) {
+            Policy::Uniform(r)
+        } else {
+            let mut prio: Vec<u32> = (0..n as u32).map(|i| 100 + i).collect();
+            r.shuffle(&mut prio);
+            let d = 1 + r.usize(3);
+            let changes: Vec<u64> = (0..d).map(|_| r.range(1, 60)).collect();
+            Policy::Pct(r, prio, changes)
+        }
+    };
+    let records: Arc<Mutex<Vec<OpRecord>>> = Arc::new(Mutex::new(vec![]));
+    let mut schedule: Vec<u8> = vec![];
+    let mut hung = false;
+    let mut deadlock = false;
+    std::thread::scope(|scope| {
+        for t in 0..n {
+            let ctl = ctl.clone();
+            let store = &store;
+            let ops = &trace.threads[t];
+            let enc = &enc;
+            let records = records.clone();
+            let _ = scope.spawn(move || {
+                TID.with(|c| c.set(Some(t)));
+                for (i, op) in ops.iter().enumerate() {
+                    {
+                        let mut g = ctl.m.lock().unwrap();
+                        g.cur_op[t] = i;
+                    }
+                    ctl.yield_at(t, St::Parked("op_start"));
+                    let invoke = ctl.step();
+                    let out = exec_op(store, op, enc);
+                    ctl.release_writer_if_held(t);
+                    let ret = ctl.step();
+                    records.lock().unwrap().push(OpRecord { thread: t, idx: i, op: op.clone(), invoke, ret, out });
+                }
+                TID.with(|c| c.set(None));
+                ctl.done(t);
+            });
+        }
+        // the controller
+        let mut last: Option<usize> = None;
+        loop {
+            let mut g = ctl.m.lock().unwrap();
+            // wait until nobody is running
+            let mut waited = 0;
+            while g.status.iter().any(|s| matches!(s, St::Running | St::NotStarted)) || g.current.is_some() {
+                let (g2, to) = ctl.cv.wait_timeout(g, Duration::from_secs(5)).unwrap();
+                g = g2;
+                if to.timed_out() {
+                    waited += 1;
+                    if waited >= 6 {
+                        g.hung = true;
+                        break;
+                    }
+                }
+            }
+            if g.hung {
+                hung = true;
+                break;
+            }
+            if g.status.iter().all(|s| *s == St::Done) {
+                break;
+            }
+            let runnable: Vec<usize> = (0..n)
+                .filter(|t| match g.status[*t] {
+                    St::Parked(_) => true,
+                    St::WaitWriter => g.writer.is_none(),
+                    _ => false,
+                })
+                .collect();
+            if runnable.is_empty() {
+                deadlock = true;
+                break;
+            }
+            let pick = match &mut policy {
+                Policy::Replay(s, pos) => {
+                    let mut chosen = None;
+                    while *pos < s.len() {
+                        let c = s[*pos] as usize;
+                        *pos += 1;
+                        if runnable.contains(&c) {
+                            chosen = Some(c);
+                            break;
+                        }
+                    }
+                    chosen.unwrap_or(runnable[0])
+                }
+                Policy::Uniform(r) => *r.pick(&runnable),
+                Policy::Pct(r, prio, changes) => {
+                    let step = g.step;
+                    let best = *runnable.iter().max_by_key(|t| prio[**t]).unwrap();
+                    if changes.contains(&step) {
+                        // lower the priority of the thread that would run
+                        prio[best] = r.below(50) as u32;
+                    }
+                    *runnable.iter().max_by_key(|t| prio[**t]).unwrap()
+                }
+            };
+            g.step += 1;
+            let from = match g.status[pick] {
+                St::Parked(p) => p.to_string(),
+                St::WaitWriter => "write_txn".to_string(),
+                _ => "?".to_string(),
+            };
+            if g.status[pick] == St::WaitWriter {
+                g.writer = Some(pick);
+                g.grants.push(pick);
+                let o = g.cur_op[pick];
+                g.grant_ops.push((pick, o));
+            }
+            if let Some(l) = last {
+                if l != pick && !matches!(g.status[l], St::Done | St::Parked("op_start")) {
+                    stats.inc("conc/switch_in_flight");
+                }
+            }
+            last = Some(pick);
+            let step = g.step;
+            g.events.push((step, pick, from));
+            schedule.push(pick as u8);
+            g.current = Some(pick);
+            g.status[pick] = St::Running;
+            ctl.cv.notify_all();
+        }
+        if hung || deadlock {
+            // threads may be stuck for good: the process cannot continue
+            let what = if hung { "a thread did not reach its next yield point within 30 s (blocked or spinning in the real code)" } else { "no thread is runnable (all wait for the writer lock)" };
+            println!("X conc run stuck: {what}");
+            let txt = {
+                let mut t = trace.clone();
+                t.schedule = schedule.clone();
+                t.to_text()
+            };
+            let p = format!("{}/replays/C14-{}-stuck.trace", crate::verif_root(), trace.cfg.seed);
+            let _ = std::fs::create_dir_all(format!("{}/replays", crate::verif_root()));
+            let _ = std::fs::write(&p, txt);
+            println!("F 0 {}\tconc-stuck\tC14\t0\t{what}; schedule so far written to {p}", trace.cfg.seed);
+            use std::io::Write;
+            let _ = std::io::stdout().flush();
+            std::process::exit(3);
+        }
+    });
+    pocket_db::verif::install(None);
+    let recs: Vec<OpRecord> = records.lock().unwrap().clone();
+    let g = ctl.m.lock().unwrap();
+    stats.add("conc/steps", g.step);
+    stats.add("conc/writer_grants", g.grants.len() as u64);
+    for (_, _, from) in &g.events {
+        stats.inc(&format!("conc/released_from/{from}"));
+    }
+    // signature: the (thread, point) schedule
+    let mut sig: u64 = 0xcbf2_9ce4_8422_2325;
+    for (_, t, from) in &g.events {
+        sig = (sig ^ fnv1a(format!("{t}:{from}").as_bytes())).wrapping_mul(0x0000_0100_0000_01B3);
+    }
+    for (s, t, from) in &g.events {
+        log.push(format!("step {s}: thread {t} released from {from}"));
+    }
+    let grant_ops = g.grant_ops.clone();
+    drop(g);
+    let mut sorted = recs.clone();
+    sorted.sort_by_key(|r| (r.thread, r.idx));
+    for r in &sorted {
+        log.push(format!("thread {} op {} [{}..{}] {} -> {}", r.thread, r.idx, r.invoke, r.ret, r.op.kind_name(), outcome_label(&r.out)));
+        stats.inc(&format!("op/{}", r.op.kind_name()));
+        if let Outcome::Store(s) = &r.out {
+            stats.inc(&format!("store/{}", s.class()));
+        }
+    }
+    if verbose {
+        for l in &log {
+            eprintln!("{l}");
+        }
+    }
+
+    // ---- oracle
+    let final_obs = obs::observe_real(&store, &model_universe(&model, &recs), &opts, 0);
+    let per_thread: Vec<Vec<usize>> = (0..n).map(|t| {
+        let mut v: Vec<usize> = (0..sorted.len()).filter(|i| sorted[*i].thread == t).collect();
+        v.sort_by_key(|i| sorted[*i].idx);
+        v
+    }).collect();
+    // hint: writers in grant order, readers by return step
+    let mut hint: Vec<usize> = vec![];
+    {
+        let mut keyed: Vec<(u64, usize)> = vec![];
+        for (i, r) in sorted.iter().enumerate() {
+            let gpos = grant_ops.iter().position(|(t, o)| *t == r.thread && *o == r.idx);
+            let key = match gpos {
+                Some(p) => {
+                    // place the writer at the step of its grant
+                    let mut k = r.invoke;
+                    // grants happen in step order; find the step of this grant
+                    let mut seen = 0;
+                    let g = ctl.m.lock().unwrap();
+                    for (s, t, from) in &g.events {
+                        if from == "write_txn" {
+                            if seen == p {
+                                k = *s;
+                                let _ = t;
+                                break;
+                            }
+                            seen += 1;
+                        }
+                    }
+                    k
+                }
+                None => r.ret,
+            };
+            keyed.push((key, i));
+        }
+        keyed.sort();
+        hint = keyed.into_iter().map(|(_, i)| i).collect();
+    }
+    let mut search = Search { recs: &sorted, per_thread, enc: &enc, final_obs: &final_obs, opts: ObsOpts { battery: false, extra: false, offsets: false }, budget: 200_000, leaf_mismatch: None };
+    let mut next = vec![0usize; n];
+    let verdict = search.dfs(&mut next, &model, &hint, 0);
+    let mut finding = None;
+    match verdict {
+        Some(true) => stats.inc("conc/linearizable"),
+        None => stats.inc("conc/search_budget_exhausted"),
+        Some(false) => {
+            let mut detail = String::from("no order of the operations consistent with real time explains the results: ");
+            for r in &sorted {
+                detail.push_str(&format!("[t{} {} {}..{} -> {}] ", r.thread, r.op.brief().chars().take(60).collect::<String>(), r.invoke, r.ret, outcome_label(&r.out).chars().take(70).collect::<String>()));
+            }
+            if let Some(l) = &search.leaf_mismatch {
+                detail.push_str(&format!("; with the results explained, the final state differs: {l}"));
+            }
+            finding = Some(Finding { clause: "not-linearizable".into(), props: vec!["C14"], detail, op_index: 0 });
+        }
+    }
+    // every reader error is a violation by itself (an index entry whose bytes are unreadable, a panic)
+    if finding.is_none() {
+        for r in &sorted {
+            let bad = match &r.out {
+                Outcome::Has(Err(e)) | Outcome::Get(Err(e)) | Outcome::Removed(Err(e)) => Some(e.clone()),
+                Outcome::Query(QueryOutcomeC::OtherErr(e)) | Outcome::Query(QueryOutcomeC::Panic(e)) => Some(e.clone()),
+                Outcome::Store(StoreOutcome::Panic(p)) | Outcome::Store(StoreOutcome::Other(p)) => Some(p.clone()),
+                _ => None,
+            };
+            if let Some(e) = bad {
+                finding = Some(Finding { clause: "concurrent-op-failed".into(), props: vec!["C14"], detail: format!("thread {} {} failed: {e}", r.thread, r.op.brief()), op_index: 0 });
+                break;
+            }
+        }
+    }
+    let _ = real::catch(|| store.verif_close());
+    let _ = std::fs::remove_dir_all(&scratch);
+    pocket_types::verif_clock::set(None);
+    if let Some(f) = &finding {
+        log.push(format!("FINDING {} {}", f.clause, f.detail));
+    }
+    let nops = trace.ops.len() + sorted.len();
+    finish(finding, stats, log, sig, nops, schedule)
+}
+
+/// the probing universe must include everything the threads touched
+fn model_universe(base: &Model, recs: &[OpRecord]) -> Model {
+    let mut m = base.clone();
+    for r in recs {
+        match &r.op {
+            Op::Store(e) => m.note_event(e),
+            Op::Remove(id) | Op::Get(id) | Op::Has(id) => {
+                if !m.events.contains_key(id) {
+                    let _ = m.named_ids.insert(*id);
+                }
+            }
+            _ => {}
+        }
+    }
+    m
+}
+
+// ------------------------------------------------------------------ minimisation
+
+fn fails_same(t: &Trace, target: &Target) -> Option<Vec<u8>> {
+    let n = std::sync::atomic::AtomicU64::new(0);
+    let _ = n;
+    let scratch = crate::runner::scratch_root().join(format!("m{}", fnv1a(t.to_text().as_bytes())));
+    let r = run_conc_full(t, scratch, false);
+    match r.result.finding {
+        Some(f) if f.clause == target.clause && f.props.iter().any(|p| target.props.iter().any(|q| q == p)) => Some(r.schedule),
+        _ => None,
+    }
+}
+
+/// Fix the schedule that failed, then drop base ops, thread ops and schedule entries while the
+/// same clause still fails; finally reduce context switches.
+pub fn minimize_conc(trace: &Trace, target: &Target, _known: &BTreeSet<String>) -> Trace {
+    let mut best = trace.clone();
+    // 1. pin the schedule
+    match fails_same(&best, target) {
+        Some(s) => best.schedule = s,
+        None => return best,
+    }
+    let mut budget = 400;
+    // 2. drop base ops
+    let mut i = 0;
+    while i < best.ops.len() && budget > 0 {
+        let mut t = best.clone();
+        let _ = t.ops.remove(i);
+        budget -= 1;
+        if let Some(s) = fails_same(&t, target) {
+            t.schedule = s;
+            best = t;
+        } else {
+            i += 1;
+        }
+    }
+    // 3. drop thread ops (keep at least one op per thread so that indexes stay meaningful)
+    for th in 0..best.threads.len() {
+        let mut i = 0;
+        while i < best.threads[th].len() && budget > 0 {
+            let mut t = best.clone();
+            let _ = t.threads[th].remove(i);
+            budget -= 1;
+            if let Some(s) = fails_same(&t, target) {
+                t.schedule = s;
+                best = t;
+            } else {
+                i += 1;
+            }
+        }
+    }
+    // 4. fewer context switches: try to make each thread run longer
+    let mut i = 1;
+    while i < best.schedule.len() && budget > 0 {
+        if best.schedule[i] != best.schedule[i - 1] {
+            let mut t = best.clone();
+            t.schedule[i] = t.schedule[i - 1];
+            budget -= 1;
+            if let Some(s) = fails_same(&t, target) {
+                t.schedule = s;
+                best = t;
+                continue;
+            }
+        }
+        i += 1;
+    }
+    best
 }
